@@ -224,7 +224,7 @@ impl Chunking {
             return cr;
         }
         let mk = |c: &Cfg| Runner::<T>::fresh(c, Sig::noise(s1));
-        let (mut ra, mut rb) = match (mk(&a), mk(&b)) {
+        let (mut ra, mut rb) = match (mk(&a), Runner::<T>::fresh_direct(&b, Sig::noise(s1))) {
             (Ok(x), Ok(y)) => (x, y),
             _ => {
                 cr.inconclusive = Some("constructor".into());
@@ -331,7 +331,10 @@ impl Chunking {
                         Some(t) if j < t.len() => {
                             let tau = t[j] - 1.0;
                             let x = if a.kind.is_sinc() { tau * a.oversampling as f64 - 0.5 } else { tau };
-                            (x - x.round()).abs() < 1e-5 * (1.0 + a.oversampling as f64 * 0.0) + 1e-6
+                            // the two chunkings accumulate position rounding differently (same model as the value
+                            // tolerance below), scaled to grid units
+                            let scale = if a.kind.is_sinc() { a.oversampling as f64 } else { 1.0 };
+                            (x - x.round()).abs() < 1.1e-5 + scale * 16.0 * (j as f64 + 64.0) * ulp(m_idx)
                         }
                         _ => false,
                     };
@@ -649,6 +652,8 @@ impl Acct {
                 let wv: Vec<&[T]> = wi.iter().map(|c| &c[..n]).collect();
                 let rr = if calls % 2 == 0 { r.process(&wv, None) } else { r.process_partial(Some(&wv), None) };
                 rr.map(|v| (n, v.first().map(|c| c.len()).unwrap_or(0)))
+            } else if cfg.via_dyn {
+                r.as_dyn().process_into_buffer(&wi, &mut wo, None)
             } else {
                 r.process_into_buffer(&wi, &mut wo, None)
             };
